@@ -48,6 +48,9 @@ func NewResult(rule, clause string) *Result {
 func (r *Result) Ok(sub, pos, what string) {
 	r.Obligations++
 	r.Discharged++
+	if os.Getenv("SFCHECK_DUMP") != "" {
+		fmt.Fprintf(os.Stderr, "ok %s%s\t%s\t%s\n", r.Rule, sub, pos, what)
+	}
 	if len(r.Samples) < 6 || (r.Obligations%97 == 0 && len(r.Samples) < 12) {
 		r.Samples = append(r.Samples, Sample{Rule: r.Rule + sub, Pos: pos, What: what, Verdict: "discharged"})
 	}
